@@ -209,6 +209,15 @@ class IdProp(PropBase):
             bad = atoms_violation(est, {f"V{v}" for v in g["nodes"]})
             if bad:
                 violation, key = bad, "C06/vocabulary"
+        if violation is None:
+            # (the TEXT of an estimand may differ under other names: sub-graphs are built from sets, whose iteration order follows the hashes of the
+            # names and breaks ties between topological orders; the verdict and the absence of errors may not)
+            def renamed():
+                est2, code2, exc2, *_ = self.call(case)
+                return ("exception:" + exc2) if exc2 else ("estimand" if est2 is not None else "unidentifiable")
+            diff = GG.renamed_differs(case, ("exception:" + exc) if exc else ("estimand" if est is not None else "unidentifiable"), renamed)
+            if diff:
+                violation, key = diff, "C02/name-dependent"
         term = (f"CId {c_graph_off(g)} {c_list([OFF + v for v in X])} {c_list([OFF + v for v in Y])} {c_table(tbl)} {code} "
                 f"{GE.c_expr(est) if est is not None else 'EOne'}")
         if ambiguous:
